@@ -153,8 +153,40 @@ func ptrElemOr(t types.Type) types.Type {
 	return t
 }
 
+var curWorld *World
+
+// callSites: the static calls of fn in the module (nil for a function whose value escapes is not handled: callers
+// through function values are not found, so fn must not be used as a value)
+func (w *World) callSites(fn *ssa.Function) []ssa.CallInstruction {
+	if w.sites == nil {
+		w.sites = map[*ssa.Function][]ssa.CallInstruction{}
+		var scan func(f *ssa.Function)
+		scan = func(f *ssa.Function) {
+			for _, b := range f.Blocks {
+				for _, ins := range b.Instrs {
+					if ci, ok := ins.(ssa.CallInstruction); ok {
+						if callee, ok := ci.Common().Value.(*ssa.Function); ok {
+							w.sites[callee] = append(w.sites[callee], ci)
+						}
+					}
+				}
+			}
+			for _, a := range f.AnonFuncs {
+				scan(a)
+			}
+		}
+		for _, f := range w.Funcs {
+			if f.Parent() == nil {
+				scan(f)
+			}
+		}
+	}
+	return w.sites[fn]
+}
+
 // immutableTable: the global is only read (loaded and then indexed / ranged / measured), never written after init.
 func (w *World) immutableTable(gl *ssa.Global) bool {
+	curWorld = w
 	if w.immut == nil {
 		w.immut = map[*ssa.Global]bool{}
 		bad := map[*ssa.Global]bool{}
@@ -179,6 +211,24 @@ func (w *World) immutableTable(gl *ssa.Global) bool {
 							if !(isInit && u.Addr == g) {
 								bad[g] = true
 							}
+						case *ssa.IndexAddr:
+							// &table[i] of an array-typed table: loads only
+							if u.X != g {
+								bad[g] = true
+								break
+							}
+							for _, ar := range *u.Referrers() {
+								if ld, ok := ar.(*ssa.UnOp); ok && ld.Op == token.MUL {
+									continue
+								}
+								if _, ok := ar.(*ssa.DebugRef); ok {
+									continue
+								}
+								if !isInit {
+									bad[g] = true
+								}
+							}
+						case *ssa.DebugRef:
 						default:
 							if !isInit {
 								bad[g] = true
@@ -253,8 +303,16 @@ func readOnlyUses(v ssa.Value, depth int) bool {
 				return false
 			}
 		case *ssa.Return:
-			// returning a nested table (yangCardinality) is fine when callers only read; be conservative
-			return false
+			// returning a (nested) table is fine when every caller of the function only reads the result
+			if curWorld == nil || depth > 2 {
+				return false
+			}
+			for _, site := range curWorld.callSites(u.Parent()) {
+				cv, isVal := site.(ssa.Value)
+				if !isVal || !readOnlyUses(cv, depth+1) {
+					return false
+				}
+			}
 		default:
 			return false
 		}
